@@ -14,7 +14,7 @@ import sys
 sys.path.insert(0, os.path.dirname(os.path.dirname(os.path.abspath(__file__))))
 
 from mc import runner  # noqa: E402
-from mc.driver import MachineDriver  # noqa: E402
+from mc.driver import MachineDriver, simple_state  # noqa: E402
 from mc.explore import bfs  # noqa: E402
 
 LIFE = ["will_start", "starting", "started", "will_stop", "stopping", "stopped"]
@@ -217,7 +217,9 @@ class ModeDriver(MachineDriver):
         return (tuple(sorted(self.last.items())), tuple(sorted(self.armed.items())), tuple(sorted(self.hold)),
                 tuple(sorted(self.waits)), tuple(sorted(self.pending_start.items())), tuple(sorted(self.pending_stop.items())),
                 self.modes_fp(), repr(sorted(self.registry().items())), self.rel_timers(), self.task_fp(),
-                m.counters["m1_counter"].value)
+                m.counters["m1_counter"].value,
+                tuple(simple_state(m.modes[n], exclude=("event_handlers", "mode_devices", "stop_methods", "start_event_kwargs",
+                                                        "asset_paths", "path", "switch_handlers", "stop_callbacks")) for n in MODES))
 
     def observe(self):
         return {"traces": {n: t[-8:] for n, t in self.trace.items()}, "active": sorted(md.name for md in self.m.mode_controller.active_modes),
